@@ -110,7 +110,15 @@ def run_case(case):
     obs["max_timeseries_dev"] = err
     # conditioning of the joint: tiny noise next to an exactly known initial state
     cond_hint = float(np.max(total_std) / np.min(total_std))
-    tol = TOL * max(1.0, cond_hint * 1e-6)
+    # conditioning of the joint in correlation form: the log-density of strongly correlated high-order coefficients over
+    # many times is sensitive to rounding in proportion to it
+    Cn = (P + np.diag(std_full**2)) / np.outer(total_std, total_std)
+    try:
+        kappa = float(np.linalg.cond(Cn))
+    except np.linalg.LinAlgError:
+        kappa = float("inf")
+    obs["max_joint_condition"] = kappa
+    tol = TOL * max(1.0, cond_hint * 1e-6) + 1e-13 * kappa
     if not err <= tol:
         viols.append(util.viol("timeseries_loss", f"loss_lml_timeseries={got!r} but the log-density of the data under the joint smoothing posterior plus noise is {ref!r} (rel {err:.3g})",
                                tags=tags, witness={"times": times, "std": std, "T": T}))
